@@ -630,7 +630,8 @@ impl<T: Elem + Clone + Default + Peek> World<T> {
                 let i = need!(self.pick(s, Ty::Iter));
                 let back = matches!(op, Op::NthBack(..));
                 let len = self.pool[i].m.len();
-                let n = (a as usize * (len + 3)) >> 8;
+                // the top four argument values stand for usize::MAX - 3 ..= usize::MAX ("skip everything")
+                let n = if a >= 252 { usize::MAX - (255 - a) as usize } else { (a as usize * (len + 3)) >> 8 };
                 let Entry::Iter(it) = &mut self.pool[i].e else { unreachable!() };
                 let g = if back { it.nth_back(n) } else { it.nth(n) };
                 let m = &mut self.pool[i].m;
@@ -976,8 +977,8 @@ pub fn op_strategy() -> impl Strategy<Value = Op> {
         1 => s().prop_map(Op::CloneArr),
         3 => s().prop_map(Op::Next),
         3 => s().prop_map(Op::NextBack),
-        2 => (s(), b()).prop_map(|(a, k)| Op::Nth(a, k)),
-        2 => (s(), b()).prop_map(|(a, k)| Op::NthBack(a, k)),
+        2 => (s(), prop_oneof![9 => any::<u8>(), 1 => 252u8..=255]).prop_map(|(a, k)| Op::Nth(a, k)),
+        2 => (s(), prop_oneof![9 => any::<u8>(), 1 => 252u8..=255]).prop_map(|(a, k)| Op::NthBack(a, k)),
         2 => s().prop_map(Op::CloneIter),
         1 => s().prop_map(Op::FoldRest),
         1 => s().prop_map(Op::RFoldRest),
